@@ -97,8 +97,7 @@ class Loader:
         }
         if shims:
             self.shims.update(shims)
-        self.builtin_overrides = dict(min=s_min, max=s_max, int=s_int, float=s_float,
-                                      print=lambda *a, **k: None)
+        self.builtin_overrides = dict(min=s_min, max=s_max, print=lambda *a, **k: None)
         if builtin_overrides:
             self.builtin_overrides.update(builtin_overrides)
         self.skip_init = set(skip_init)
@@ -222,12 +221,13 @@ def cut_value(val, tag):
     if isinstance(val, tuple):
         return tuple(cut_value(v, '%s%d' % (tag, i)) for i, v in enumerate(val))
     if isinstance(val, np.ndarray) and val.dtype == object:
+        raw = symnp._plain(val)
         out = np.empty(val.shape, dtype=object)
         for pos in np.ndindex(*val.shape):
-            out[pos] = c.cut(val[pos], tag)
+            out[pos] = c.cut(raw[pos], tag)
         r = out.view(type(val))
-        if hasattr(val, 'unit'):
-            r.unit = val.unit
+        if hasattr(val, '_unit'):
+            r._unit = val._unit
         return r
     return c.cut(val, tag)
 
